@@ -105,9 +105,23 @@ let dump_ts (t : tsh) =
   List.iter (fun c -> add " "; dump_cs c) t.cols;
   add ")"
 
+(* the decode buffers are allocated outside the reader monad: the allocation cap is applied here,
+   with the size expression of sbdf_get_rle_values (calloc(rows, element size)) and
+   sbdf_get_bitarray_values (malloc(rows)) *)
+let va_get_values_capped (v : va) : obj res =
+  let over n = match !cap with Some c -> n > int_of_z c | None -> false in
+  let enc = int_of_z v.venc in
+  if enc = int_of_z sBDF_RUNLENGTHENCODINGTYPEID then begin
+    let esz = if is_arr v.vty then 8 else int_of_z (usize v.vty) in
+    match va_get_values v with
+    | Ok o when esz > 0 && over (esz * int_of_z v.value1) -> ignore o; Err sBDF_ERROR_OUT_OF_MEMORY
+    | r -> r
+  end else if enc = int_of_z sBDF_BITARRAYENCODINGTYPEID && over (int_of_z v.value1) then Err sBDF_ERROR_OUT_OF_MEMORY
+  else va_get_values v
+
 let dec_va (v : va) =
   add (Printf.sprintf "%d:" (int_of_z (va_row_cnt v)));
-  (match va_get_values v with
+  (match va_get_values_capped v with
    | Ok o -> add "0:"; dump_obj (Some o)
    | Err e -> add (Printf.sprintf "%d:" (int_of_z e)))
 let dec_cs (c : csh option) =
@@ -179,7 +193,7 @@ let run_line (lineno : int) (tok : string array) =
       | Ok v -> Hashtbl.replace vas (h 1) (ref v, true); st 0
       | Err e -> Hashtbl.remove vas (h 1); st (int_of_z e))
    | "vaget" ->
-     (match va_get_values !(fst (get vas (h 2))) with
+     (match va_get_values_capped !(fst (get vas (h 2))) with
       | Ok o -> Hashtbl.replace objs (h 1) o; st 0 | Err e -> Hashtbl.remove objs (h 1); st (int_of_z e))
    | "varows" -> st (int_of_z (va_row_cnt !(fst (get vas (h 1)))))
    | "vadump" -> (match Hashtbl.find_opt vas (h 1) with Some (v, _) -> dump_va !v | None -> add "null")
